@@ -824,6 +824,11 @@ OPS = [
     # a broadcast join with an npartitions hint below the partition count of the large side (D81)
     *[_op(f"merge_{how}_bcast_np{n}", lambda t, how=how, n=n: _merge(t["L"], t["R"], on="b", how=how, broadcast=True, shuffle_method="tasks", npartitions=n),
           "join", binary="right", unordered=True, noindex=True) for how in ("inner", "left", "right") for n in (1, 2)],
+    # a semi join keeps every left row at most once, whichever side is the smaller one (D87)
+    _op("merge_leftsemi_bcast", lambda t: _merge(t["L"], t["R"], on="b", how="leftsemi", broadcast=True, shuffle_method="tasks"),
+        "join", binary="right", unordered=True, noindex=True),
+    _op("merge_leftsemi_rl_bcast", lambda t: _merge(t["R"], t["L"], on="b", how="leftsemi", broadcast=True, shuffle_method="tasks"),
+        "join", binary="right", unordered=True, noindex=True),
     _op("merge_disk", lambda t: _merge(t["L"], t["R"], on="b", how="inner", shuffle_method="disk", broadcast=False), "join",
         binary="right", unordered=True, noindex=True),
     _op("merge_left_on_right_on", lambda t: _merge(t["L"], t["R"].rename(columns={"b": "B"}), left_on="b", right_on="B", how="inner"),
@@ -841,6 +846,11 @@ OPS = [
         binary="same", unordered=True, noindex=True),
     # ---- concat
     _op("concat_rows", lambda t: _concat([t["L"], t["R"]]), "concat", binary="right"),
+    # inputs whose index names / series names differ: the result carries the common name (None), in every partition
+    # (D89: partitions were passed through with their own names, visible after reset_index / to_frame)
+    _op("concat_rows_idxnames_reset", lambda t: _concat([t["L"].rename_axis("i"), t["R"].rename_axis("j")]).reset_index(), "concat",
+        binary="right", noindex=True),
+    _op("concat_series_names_to_frame", lambda t: _concat([t["L"].a, t["L"].b]).to_frame(), "concat"),
     _op("concat_rows_inner", lambda t: _concat([t["L"], t["R"]], join="inner"), "concat", binary="right"),
     _op("concat_rows_same", lambda t: _concat([t["L"], t["R"]]), "concat", binary="same"),
     _op("concat_cols_same_frame", lambda t: _concat([t["L"][["a"]], t["L"][["b"]] * 2], axis=1), "concat"),
